@@ -19,7 +19,7 @@ def run(tier, replay=None):
     if replay:
         return replay_one(ck, rp, replay, env)
     res = run_symgo(mod, hp, "main", "^Harness_C07_", steps=20000000, env=env, maxpaths=3000000,
-                    timeout=500 if tier == "quick" else 3000)
+                    timeout=900 if tier == "quick" else 4000)
     ck.add_run(res)
     ck.handle_violations(res, rp, env=env, timeout=60)
     return ck.finish()
